@@ -36,7 +36,8 @@ ASSUMPTIONS = [
     "normal / side conventions are the documented ones: right-hand normal (t_y,-t_x)/|t| of a directed segment, "
     "side (element, s) has nodes conns[element][[s,(s+1)%3]], mortar gap g defined by x_B = x_A + g n",
     "admissible mortar pairs: non-degenerate segments whose common normal is not parallel to either segment "
-    "(relative angles 0, 1, +-20, +-60 degrees between A and the reversed B)",
+    "(relative angles 0, 1, +-20, +-60 degrees between A and the reversed B); translations are multiples of the "
+    "length of A (|x|/L <= ~400), so that coordinate rounding stays below 1e-13 in segment parameters",
     "the sign of the distance is only demanded for d != 0 (as the statement does); on the line the library's "
     "choice (+) is recorded, not judged",
     "penalty: 'vanishes exactly' is judged only when the reference model's obstacle value at every sample point is "
@@ -376,6 +377,19 @@ def _pair(cls, LA, r, gap, rel_deg):
     return A, B
 
 
+_JIT = {}
+
+
+def _mortar_compiled(MC, jax, jnp, normal_kind, l):
+    """(single compiled call, compiled batch) -- cached per worker process: relative angle, gap, class, ... are
+    run-time data, only the common-normal rule and the smoothing length are compile-time constants"""
+    k = (normal_kind, l)
+    if k not in _JIT:
+        F = _make_mortar_fn(MC, jnp, normal_kind, l)
+        _JIT[k] = (jax.jit(F), jax.jit(jax.vmap(F)))
+    return _JIT[k]
+
+
 def _make_mortar_fn(MC, jnp, normal_kind, l):
     nf = MC.compute_normal_from_a if normal_kind == "fromA" else MC.compute_average_normal
     ints = [lambda a, b, g: 1.0, lambda a, b, g: g, lambda a, b, g: g * (1.0 - a), lambda a, b, g: g * a,
@@ -488,8 +502,9 @@ def _run_mortar(g, tier, seed, rec):
             continue
         cid = "mortar;l=%s;rel=%s;normal=%s;gap=%s;%s" % (g["smoothing"], g["rel_angle"], nk, g["gap"], cid0)
         th = _angle_value(values["rot"], seed)
-        A = ref.move(pr[0], th, values["trans"])
-        B = ref.move(pr[1], th, values["trans"])
+        shift = onp.array(values["trans"]) * values["scale"]    # translations scale with the segment (conditioning)
+        A = ref.move(pr[0], th, shift)
+        B = ref.move(pr[1], th, shift)
         base = "%s|%s|%s" % (labels["scale"], labels["class"], labels["ratio"])
         ident = labels["rot"] == "0" and labels["trans"] == "0"
         cases.append((cid, labels, A, B, base, ident))
@@ -501,13 +516,11 @@ def _run_mortar(g, tier, seed, rec):
     bases = {c[4] for c in wanted}
     cases = [c for c in cases if rec.want(c[0]) or (c[5] and c[4] in bases)]
 
-    F = _make_mortar_fn(MC, jnp, nk, l)
     As = onp.stack([c[2] for c in cases])
     Bs = onp.stack([c[3] for c in cases])
     res = {}
     try:
-        fj = jax.jit(F)
-        fb = jax.jit(jax.vmap(F))
+        fj, fb = _mortar_compiled(MC, jax, jnp, nk, l)
         res["batch"] = _batched(fb, [As, Bs], BATCH)
         single = [[onp.asarray(x) for x in fj(jnp.asarray(a), jnp.asarray(b))] for a, b in zip(As, Bs)]
         res["jit"] = [onp.stack([s[k] for s in single]) for k in range(4)]
@@ -533,10 +546,11 @@ def _run_mortar(g, tier, seed, rec):
                 continue
             v, v0 = res[mode][0][i], res[mode][0][j]
             err = onp.abs(v - v0) / onp.maximum(1.0, onp.abs(v0))
-            rec.track_max("mortar invariance: |I(moved)-I| / max(1,|I|)", float(onp.max(err)))
+            ends_ij = "coincident" if "coincident" in (status[(mode, i)][1], status[(mode, j)][1]) else "generic"
+            if ends_ij == "generic" or float(onp.max(err)) <= 1e-10:
+                rec.track_max("mortar invariance: |I(moved)-I| / max(1,|I|)", float(onp.max(err)))
             if float(onp.max(err)) > 1e-10:
                 k = int(onp.argmax(err))
-                ends_ij = "coincident" if "coincident" in (status[(mode, i)][1], status[(mode, j)][1]) else "generic"
                 rec.violation(_mortar_key("integrate_with_mortar", "parallel" if parallel else "nonparallel",
                                           ends_ij, "not-rigid-motion-invariant"), cid,
                     {"mode": mode, "signature": "not-rigid-motion-invariant", "labels": dict(labels), "edgeA": A, "edgeB": B, "integrand": INTEGRANDS[k],
@@ -584,13 +598,11 @@ def _run_sweep(g, tier, seed, rec):
                       ref.move(pr[1], values["angle"], values["trans"])))
     if not cases:
         return
-    F = _make_mortar_fn(MC, jnp, nk, l)
     As = onp.stack([c[2] for c in cases])
     Bs = onp.stack([c[3] for c in cases])
     res = {}
     try:
-        fj = jax.jit(F)
-        fb = jax.jit(jax.vmap(F))
+        fj, fb = _mortar_compiled(MC, jax, jnp, nk, l)
         res["batch"] = _batched(fb, [As, Bs], BATCH)
         single = [[onp.asarray(x) for x in fj(jnp.asarray(a), jnp.asarray(b))] for a, b in zip(As, Bs)]
         res["jit"] = [onp.stack([s[k] for s in single]) for k in range(4)]
